@@ -326,11 +326,11 @@ def special_step(col, r, f, text, log):
             except Exception:
                 return True
             log.append(f'(setup) {p_} -= / *= <free expression> (accepted; the operand is consumed)')
-            what = r.choice(['*=', '+=', '-=expr', 'wrap'])
+            what = r.choice(['*=', '+=', '-=expr', 'wrap', 'value=', 'value='])
             desc = f'<expression consumed by {p_}> {what} ...'
             free = common.parser().parse('5+6', models.NumberExpr)
             call = {'*=': lambda: operator.imul(c_, 2), '+=': lambda: operator.iadd(c_, 5), '-=expr': lambda: operator.isub(c_, free),
-                    'wrap': c_.wrap_with_parenthesis}[what]
+                    'wrap': c_.wrap_with_parenthesis, 'value=': lambda: setattr(c_, 'value', D(7))}[what]
             col.count('consumed_node_as_receiver')
         elif how == 'assign':
             desc = f'{p_}.raw_number_add_expr... = <expression already consumed by a += b>'
